@@ -171,6 +171,7 @@ pub fn setup_io_uring(
                 ring_entries: cq_ring_entries,
                 entries: cq_cqes,
             },
+            reaped: [0; 4],
         })
     }
 }
